@@ -158,6 +158,9 @@ def check_C14(res, tier, seed, replay):
         inputs, ne, N = tie_inputs(rng, tier, wd)
     finally:
         shutil.rmtree(wd, ignore_errors=True)
+    if not replay:
+        mc(res, 'Collections', 'MC_Collections_q.cfg' if tier == 'quick' else 'MC_Collections_t.cfg',
+           'Collections.tla: Horton / FVS (every feedback vertex set) / ISO (linking rules of ISOCyclesBuilder incl. the operator[] fallback) on the canonical trees: sound, sufficient, fallback never taken')
     res.cov['exhaustive_space'] = 'all simple labelled graphs with <= %d vertices, weights {1,2} (TLC-enumerated): %d' % (N, ne)
     run_comp(res, tier, seed, replay, 'coll', inputs, types='double,int')
     res.cov['distinct_nontrivial'] = len({canon(g) for g, _ in inputs if gens.csd(g) >= 2})
